@@ -476,6 +476,102 @@ func ruleR16d(c *Ctx) {
 		}
 		c.check(fed, rule, key, fn.Pos(), "payload field "+r.field+" is fed from parameter "+param.Name(), "bus payload field "+r.payloadType+"."+r.field+" is not fed from the monitor parameter of the same role ("+param.Name()+"): the event misreports the change")
 	}
+	// (1b) topic, message type and ledger of each event
+	publishFn := c.Fn(pkgBus, "ledgerMonitor.publish")
+	ledgerNameF := c.Field(pkgBus, "ledgerMonitor", "ledgerName")
+	seenTopic := map[string]string{}
+	for _, method := range []string{"CommittedTransactions", "SavedMetadata", "RevertedTransaction", "DeletedMetadata"} {
+		fn := c.Fn(pkgBus, "ledgerMonitor."+method)
+		key := "ledgerMonitor." + method + ":topic-type-and-ledger"
+		if fn == nil || publishFn == nil || ledgerNameF == nil {
+			c.undecided(rule, key, token.NoPos, "bus.ledgerMonitor."+method+" / publish / ledgerName not found")
+			continue
+		}
+		var problems []string
+		nPub := 0
+		allCalls(fn, func(ci ssa.CallInstruction) {
+			if !callsFn(ci, publishFn) || len(ci.Common().Args) < 4 {
+				return
+			}
+			nPub++
+			topic, okT := constString(ci.Common().Args[2])
+			if !okT {
+				problems = append(problems, "the topic is not a constant")
+				return
+			}
+			if other, dup := seenTopic[topic]; dup && other != method {
+				problems = append(problems, "the topic "+topic+" is also used by "+other)
+			}
+			seenTopic[topic] = method
+			if !strings.Contains(strings.ToUpper(strings.ReplaceAll(topic, "_", "")), strings.ToUpper(method)) {
+				problems = append(problems, "the topic "+topic+" does not name the kind of change "+method+" reports")
+			}
+			// the message: built by a constructor of the package whose Type field is the same constant
+			msg := ci.Common().Args[3]
+			ctorCall, _ := msg.(*ssa.Call)
+			var ctor *ssa.Function
+			if ctorCall != nil {
+				ctor = staticCallee(ctorCall)
+			}
+			if ctor == nil || len(ctor.Blocks) == 0 {
+				problems = append(problems, "the message is not built by a constructor of the package")
+				return
+			}
+			typeOK, payloadOK := false, false
+			for _, b := range ctor.Blocks {
+				for _, ins := range b.Instrs {
+					st, ok := ins.(*ssa.Store)
+					if !ok {
+						continue
+					}
+					fa, ok := st.Addr.(*ssa.FieldAddr)
+					if !ok {
+						continue
+					}
+					switch fieldOfAddr(fa).Name() {
+					case "Type":
+						if t, ok := constString(st.Val); ok && t == topic {
+							typeOK = true
+						}
+					case "Payload":
+						for _, r := range roots(st.Val, nil) {
+							if p, ok := r.(*ssa.Parameter); ok && p == ctor.Params[0] {
+								payloadOK = true
+							}
+						}
+					}
+				}
+			}
+			if !typeOK {
+				problems = append(problems, "the message type set by "+ctor.Name()+" is not the topic "+topic)
+			}
+			if !payloadOK {
+				problems = append(problems, "the message payload set by "+ctor.Name()+" is not the value it was given")
+			}
+		})
+		// Ledger field of the payload = the monitor's own ledger
+		ledgerOK := false
+		for _, b := range fn.Blocks {
+			for _, ins := range b.Instrs {
+				st, ok := ins.(*ssa.Store)
+				if !ok {
+					continue
+				}
+				if fa, ok := st.Addr.(*ssa.FieldAddr); ok && fieldOfAddr(fa).Name() == "Ledger" {
+					if f, _ := anyFieldRead(st.Val); sameField(f, ledgerNameF) {
+						ledgerOK = true
+					}
+				}
+			}
+		}
+		if !ledgerOK {
+			problems = append(problems, "the payload's Ledger is not the monitor's ledger name")
+		}
+		if nPub != 1 {
+			problems = append(problems, fmt.Sprintf("%d publish calls (expected one)", nPub))
+		}
+		c.check(len(problems) == 0, rule, key, fn.Pos(), "one publish; topic = message type = the method's kind; payload passed through; Ledger = ledgerName", "bus.ledgerMonitor."+method+": "+strings.Join(problems, "; ")+": subscribers receive the change under another type, ledger or content than the one persisted")
+	}
 	// (2) commander call sites: arguments carry the persisted roles
 	for _, fn := range m.fns {
 		allCalls(fn, func(ci ssa.CallInstruction) {
